@@ -1,0 +1,66 @@
+//go:build verif
+// +build verif
+
+package flate
+
+import (
+	"io"
+	"sync"
+)
+
+// VerifStepEvent records one run of the decoder inside decompressor.step (verification hook, build tag
+// `verif` only): how much input the decoder was given and took, the bit-buffer level before and after,
+// how many bytes it produced, how it stopped and the phase it left.
+type VerifStepEvent struct {
+	InBefore, BitsBefore int
+	InAfter, BitsAfter   int
+	Produced             int
+	Status               string // "ok", "endinput", "outfull", "invalid"
+	Phase                int
+	PeekSize             int
+	Eof                  bool
+	Buffered             int
+}
+
+var verifStepLogs sync.Map // *decompressor -> *[]VerifStepEvent
+
+// VerifRecordSteps starts recording the decoder runs of r (a Reader created by NewReader).
+func VerifRecordSteps(r io.Reader) *[]VerifStepEvent {
+	d, ok := r.(*decompressor)
+	if !ok {
+		return nil
+	}
+	log := &[]VerifStepEvent{}
+	verifStepLogs.Store(d, log)
+	return log
+}
+
+// VerifStopSteps stops recording.
+func VerifStopSteps(r io.Reader) {
+	if d, ok := r.(*decompressor); ok {
+		verifStepLogs.Delete(d)
+	}
+}
+
+func (f *decompressor) verifDecoded(inBefore, bitsBefore int, err error) {
+	v, ok := verifStepLogs.Load(f)
+	if !ok {
+		return
+	}
+	st := "ok"
+	switch {
+	case err == errEndInput:
+		st = "endinput"
+	case err == errOutputOverflow:
+		st = "outfull"
+	case isError(err):
+		st = "invalid"
+	}
+	log := v.(*[]VerifStepEvent)
+	*log = append(*log, VerifStepEvent{
+		InBefore: inBefore, BitsBefore: bitsBefore,
+		InAfter: len(f.state.input), BitsAfter: int(f.state.bitsLen),
+		Produced: f.writePos - f.readPos, Status: st, Phase: int(f.state.phase),
+		PeekSize: f.peekSize, Eof: f.eof, Buffered: f.rBuf.Buffered(),
+	})
+}
